@@ -57,7 +57,9 @@ def takeKVs : Nat → List String → Option (Headers × List String)
 
 def failSituation (T : Nat) (path kind : String) : Option (Situation × Option Framing) :=
   let base : Situation := { endpointID := "e", selected := true, timeoutMs := T, up := .responds 0 200 }
-  let notAgent := path ≠ "agent"
+  let notAgent := !path.startsWith "agent"
+  -- no protocol upgrade over HTTP/2; the net/http upstream of `agent-h2` chooses its own framing
+  if path = "agent-h2" && (kind = "slow-upgrade" || kind = "slow-upgrade-case" || kind = "closemid-cl") then none else
   match kind with
   | "noendpoint" => if notAgent then some ({ base with endpointID := "" }, none) else none
   | "noupstream" => if notAgent then some ({ base with selected := false }, none) else none
